@@ -432,12 +432,15 @@ pub fn p2(ops: Vec<Vec<u8>>, consts: Vec<Vec<u8>>) -> ProgSpace {
 
 /// P3: every program tree of TREES(k, prog atoms) against every env of TREES(j, A4)
 pub fn p3(k: usize, j: usize) -> ProgSpace {
+    p3_env(k, j, &a4())
+}
+pub fn p3_env(k: usize, j: usize, eatoms: &[Vec<u8>]) -> ProgSpace {
     let patoms: Vec<Vec<u8>> = vec![vec![1], vec![2], vec![3], vec![4], vec![5], vec![6], vec![0x24], vec![], vec![0, 1], vec![1, 0]];
     let ps = TreeSpace::new(k, &atoms_t(&patoms));
-    let es = TreeSpace::new(j, &atoms_t(&a4()));
+    let es = TreeSpace::new(j, &atoms_t(eatoms));
     let total = ps.total * es.total;
     let et = es.total;
-    ProgSpace { name: format!("P3(TREES({k},10 atoms) x TREES({j},A4))"), total, get: Box::new(move |i| (ps.get(i / et), es.get(i % et))) }
+    ProgSpace { name: format!("P3(TREES({k},10 atoms) x TREES({j},{} atoms))", eatoms.len()), total, get: Box::new(move |i| (ps.get(i / et), es.get(i % et))) }
 }
 
 /// raw-syntax programs ((op . it) . args . term) — the only way to reach improper argument lists
